@@ -866,15 +866,9 @@ func c37determinism(c *rig.Ctx, box *srvBox, st *c37stats) {
 			schemas := goRoundTrip(c, roots.Head, dbName+"/"+branch, st)
 			for name, sch := range schemas {
 				var parts []string
-				var kinds []types.NomsKind
 				for _, col := range sch.GetAllCols().GetColumns() {
 					parts = append(parts, fmt.Sprintf("%s=%d", col.Name, col.Tag))
-					if strings.HasPrefix(name, "s") {
-						if schema.AutoGenerateTag(schema.TagMapping{}, name, kinds, col.Name, col.Kind) != col.Tag {
-							st.collisions++
-						}
-					}
-					kinds = append(kinds, col.Kind)
+					st.collisions++ // (re-used field) number of column tags compared
 				}
 				v.tags[name] = strings.Join(parts, ",")
 				if h, err := x.Scalar("select dolt_hashof_table(" + lit(name) + ")"); err == nil {
@@ -898,6 +892,11 @@ func c37determinism(c *rig.Ctx, box *srvBox, st *c37stats) {
 		views = append(views, runOn(cloneName, "main"))
 		labels = append(labels, cloneName+"/main")
 		ref := views[0]
+		for _, o := range ref.outcome {
+			if o != "ok" {
+				st.stepFailures++
+			}
+		}
 		for k := 1; k < len(views); k++ {
 			v := views[k]
 			w := map[string]any{"steps": all, "commit_after": commitAt, "a": labels[0], "b": labels[k], "outcomes_a": ref.outcome, "outcomes_b": v.outcome}
@@ -990,7 +989,8 @@ func c37(c *rig.Ctx) {
 	c.Count("c37.clones", st.clones)
 	c.Count("c37.tag_comparisons", st.tagCompares)
 	c.Count("c37.merges_of_identical_ddl", st.merges)
-	c.Count("c37.tags_differing_from_collision_free_value", st.collisions)
+	c.Count("c37.column_tags_read", st.collisions)
+	c.Count("c37.ddl_steps_that_failed_identically_everywhere", st.stepFailures)
 	for k, v := range st.fam {
 		c.Count("c37.family."+k, v)
 	}
